@@ -21,13 +21,14 @@ func init() {
 		Technique: "phi-edge guard analysis of the family/netmask selection, value-flow of the subnet address and of the option into the message, must-pass query for the limited reader's overflow test, guard analysis of the GET/POST decoding and dispatch",
 		Meta: core.Meta{
 			Level:       "other",
-			Explanation: "Decides for bfe_modules/mod_doh: (1) the values stored into EDNS0_SUBNET.Family and .SourceNetmask are selected by a nil-test of To4() of the very address stored in .Address (To16() is non-nil for every valid address and cannot tell the families apart), with 1/32 on the To4() != nil side and 2/128 on the other; (2) that address is req.ClientAddr.IP when ClientAddr is set, else req.RemoteAddr.IP; the subnet option is appended to an OPT record that is appended to the message's Extra, and RequestToDnsMsg calls setClientSubnet on the message it returns on every success path; (3) every ReadAll of a request body in the package goes through an io.LimitedReader/LimitReader over req.Body, and between that read and unpacking there is, on every path, a test of the bytes read / the reader's remaining count whose failing side returns an error (oversized bodies are rejected, not truncated and parsed); (4) requestToMsgGet decodes only when the `dns` query key is present with exactly one value and unpacks only the successfully decoded bytes; (5) unpackMsg returns Unpack's error, both converters return unpackMsg's (msg, err) pair unchanged, RequestToDnsMsg dispatches GET/POST to the matching converter, rejects other methods and returns a message only when the error is nil; DnsClient.Fetch forwards only the message RequestToDnsMsg returned without error. Not covered: the DNS wire format itself (miekg/dns Unpack/Pack), that a pre-existing OPT/ECS record in the client's message is replaced rather than duplicated, the upstream exchange, TTL/Cache-Control arithmetic.",
+			Explanation: "Decides for bfe_modules/mod_doh: (1) the values stored into EDNS0_SUBNET.Family and .SourceNetmask are selected by a nil-test of To4() of the very address stored in .Address (To16() is non-nil for every valid address and cannot tell the families apart), with 1/32 on the To4() != nil side and 2/128 on the other; (2) that address is req.ClientAddr.IP when ClientAddr is set, else req.RemoteAddr.IP; the subnet option is appended to an OPT record that is appended to the message's Extra, and RequestToDnsMsg calls setClientSubnet on the message it returns on every success path; (3) every ReadAll of a request body in the package goes through an io.LimitedReader/LimitReader over req.Body, and between that read and unpacking there is, on every path, a test of the bytes read / the reader's remaining count whose failing side returns an error (oversized bodies are rejected, not truncated and parsed); (4) requestToMsgGet decodes only when the `dns` query key is present with exactly one value and unpacks only the successfully decoded bytes; (5) unpackMsg returns Unpack's error, both converters return unpackMsg's (msg, err) pair unchanged, RequestToDnsMsg dispatches GET/POST to the matching converter, rejects other methods and returns a message only when the error is nil; DnsClient.Fetch forwards only the message RequestToDnsMsg returned without error. Obligations (1)-(2) are decided over setClientSubnet's region (the function plus its private helpers: unexported, all call sites inside the region, never used as values): the stores may sit in a helper, and the option / OPT record / message / address are identified across parameters (argument at every call site) and results (every returned value). Comparisons are accepted in every spelling. Not covered: helpers extracted from the converters / the dispatcher that carry the (message, error) pair through their own results, the DNS wire format itself (miekg/dns Unpack/Pack), that a pre-existing OPT/ECS record in the client's message is replaced rather than duplicated, the upstream exchange, TTL/Cache-Control arithmetic.",
 			RuleText:    "obligations = each phi edge of Family/SourceNetmask with its controlling address test; the Address origins; the option/OPT/Extra attachment chain; each ReadAll of a body; each path from the bounded read to Unpack; the guards of the GET decoder; each return of the converters and of the dispatcher; the forwarding call",
 			Assumptions: []string{"net.IP.To4() != nil characterises IPv4 (and IPv4-mapped) addresses (stdlib contract)"},
 		},
 		Run: runC56,
 		Mutants: []Mutant{
-			{Name: "family-inverted-with-to4", File: "bfe_modules/mod_doh/dns_msg_convert.go", Old: "	if cip.To16() != nil {", New: "	if cip.To4() != nil {", Expect: "family-polarity"},
+			{Name: "family-inverted-with-to4", File: "bfe_modules/mod_doh/dns_msg_convert.go", Old: "\tif cip.To4() == nil {", New: "\tif cip.To4() != nil {", Expect: "family-polarity"},
+			{Name: "family-told-apart-by-to16", File: "bfe_modules/mod_doh/dns_msg_convert.go", Old: "\tif cip.To4() == nil {", New: "\tif cip.To16() == nil {", Expect: "family-selector"},
 			{Name: "option-not-attached", File: "bfe_modules/mod_doh/dns_msg_convert.go", Old: "	dnsMsg.Extra = append(dnsMsg.Extra, opt)\n", New: "", Expect: "ecs-attached"},
 			{Name: "option-code-wrong", File: "bfe_modules/mod_doh/dns_msg_convert.go", Old: "		Code:          dns.EDNS0SUBNET,", New: "		Code:          dns.EDNS0COOKIE,", Expect: "ecs-attached|setClientSubnet:option-code"},
 			{Name: "subnet-call-dropped", File: "bfe_modules/mod_doh/dns_msg_convert.go", Old: "	setClientSubnet(req, dnsMsg)\n", New: "", Expect: "ecs-attached"},
@@ -40,8 +41,10 @@ func init() {
 			{Name: "dispatch-error-ignored", File: "bfe_modules/mod_doh/dns_msg_convert.go", Old: "	if err != nil {\n		return nil, err\n	}\n\n	setClientSubnet", New: "	_ = err\n\n	setClientSubnet", Expect: "dispatch"},
 			{Name: "post-routed-to-get", File: "bfe_modules/mod_doh/dns_msg_convert.go", Old: "	case \"POST\":\n		dnsMsg, err = requestToMsgPost(httpRequest)", New: "	case \"POST\", \"PUT\":\n		dnsMsg, err = requestToMsgPost(httpRequest)", Expect: "dispatch"},
 			{Name: "fetch-forwards-after-error", File: "bfe_modules/mod_doh/dns_fetcher.go", Old: "			log.Logger.Debug(\"dns client: RequestToDnsMsg error: %v\", err)\n		}\n\n		return nil, err\n	}", New: "			log.Logger.Debug(\"dns client: RequestToDnsMsg error: %v\", err)\n		}\n	}", Expect: "forward-valid"},
-			{Name: "silent-family-fixed", File: "bfe_modules/mod_doh/dns_msg_convert.go", Old: "	if cip.To16() != nil {", New: "	if cip.To4() == nil {", Silent: true},
+			{Name: "silent-family-mirrored", File: "bfe_modules/mod_doh/dns_msg_convert.go", Old: "\tif cip.To4() == nil {\n\t\tfamily = 2\n\t\tsourceNetmask = 128\n\t}\n", New: "\tif v4 := cip.To4(); nil != v4 {\n\t\tfamily = 1\n\t\tsourceNetmask = 32\n\t} else {\n\t\tfamily = 2\n\t\tsourceNetmask = 128\n\t}\n", Silent: true},
 			{Name: "silent-overflow-fixed", File: "bfe_modules/mod_doh/dns_msg_convert.go", Old: "	bodyReader := io.LimitedReader{R: req.Body, N: maxPostMsgLength}\n	buf, err := ioutil.ReadAll(&bodyReader)\n	if err != nil {\n		return nil, err\n	}\n", New: "	bodyReader := io.LimitedReader{R: req.Body, N: maxPostMsgLength + 1}\n	buf, err := ioutil.ReadAll(&bodyReader)\n	if err != nil {\n		return nil, err\n	}\n	if int64(len(buf)) > maxPostMsgLength {\n		return nil, fmt.Errorf(\"dns message too large\")\n	}\n", Silent: true},
+			{Name: "silent-opt-attach-in-helper", File: "bfe_modules/mod_doh/dns_msg_convert.go", Old: "\topt := new(dns.OPT)\n\topt.Hdr.Name = \".\"\n\topt.Hdr.Rrtype = dns.TypeOPT\n\topt.SetUDPSize(dns.DefaultMsgSize)\n\topt.Option = append(opt.Option, subnet)\n\tdnsMsg.Extra = append(dnsMsg.Extra, opt)\n}\n", New: "\tattachSubnet(dnsMsg, subnet)\n}\n\nfunc attachSubnet(msg *dns.Msg, ecs *dns.EDNS0_SUBNET) {\n\trecord := new(dns.OPT)\n\trecord.Hdr.Name = \".\"\n\trecord.Hdr.Rrtype = dns.TypeOPT\n\trecord.SetUDPSize(dns.DefaultMsgSize)\n\trecord.Option = append(record.Option, ecs)\n\tmsg.Extra = append(msg.Extra, record)\n}\n", Silent: true},
+			{Name: "silent-one-value-mirrored", File: "bfe_modules/mod_doh/dns_msg_convert.go", Old: "\tif len(dnsQuery) != 1 {", New: "\tif 1 != len(dnsQuery) {", Silent: true},
 		},
 	})
 }
@@ -100,11 +103,21 @@ func mdCaseFromFacts(val int64, facts []mdFact, mapRecv func(ssa.Value) ssa.Valu
 // branches (phi) or by the returns of a statically called helper, and pairs
 // every constant with the address test controlling it. mapRecv translates the
 // tested value into the caller's terms (helper parameter -> argument).
-func mdSelection(v ssa.Value, mapRecv func(ssa.Value) ssa.Value, depth int) ([]mdSelCase, bool) {
-	if depth > 3 {
+func mdSelection(p *core.Prog, v ssa.Value, mapRecv func(ssa.Value) ssa.Value, depth int) ([]mdSelCase, bool) {
+	if depth > 4 {
 		return nil, false
 	}
 	switch x := v.(type) {
+	case *ssa.Parameter:
+		// the selected value is handed to a private helper: the selection is
+		// made at the helper's single call site (tested values are then in the
+		// caller's terms; identity is decided by m2SameObj)
+		site := m2SoleSite(p, x.Parent())
+		i := m2ParamIndex(x)
+		if site == nil || i < 0 || i >= len(site.Call.Args) {
+			return nil, false
+		}
+		return mdSelection(p, site.Call.Args[i], mapRecv, depth+1)
 	case *ssa.Phi:
 		var out []mdSelCase
 		for i, e := range x.Edges {
@@ -113,7 +126,7 @@ func mdSelection(v ssa.Value, mapRecv func(ssa.Value) ssa.Value, depth int) ([]m
 				out = append(out, mdCaseFromFacts(k, mdEdgeFacts(pred, x.Block()), mapRecv))
 				continue
 			}
-			sub, ok := mdSelection(e, mapRecv, depth+1)
+			sub, ok := mdSelection(p, e, mapRecv, depth+1)
 			if !ok {
 				return nil, false
 			}
@@ -157,7 +170,7 @@ func mdSelection(v ssa.Value, mapRecv func(ssa.Value) ssa.Value, depth int) ([]m
 			out = append(out, mdCaseFromFacts(k, facts, inner))
 			continue
 		}
-		sub, ok := mdSelection(rv[idx], inner, depth+1)
+		sub, ok := mdSelection(p, rv[idx], inner, depth+1)
 		if !ok {
 			return nil, false
 		}
@@ -195,7 +208,11 @@ func runC56(c *core.Ctx) {
 	var subnet ssa.Value // the EDNS0_SUBNET object
 	var address ssa.Value
 	fieldStores := map[string]*ssa.Store{}
-	core.Instrs(scs, func(in ssa.Instruction) {
+	region := c.P.Region(scs) // setClientSubnet and its private helpers
+	for _, g := range region {
+		c.Analysed(core.FuncKey(g))
+	}
+	c.P.RegionInstrs(scs, func(in ssa.Instruction) {
 		st, ok := in.(*ssa.Store)
 		if !ok {
 			return
@@ -218,12 +235,13 @@ func runC56(c *core.Ctx) {
 		c.Missing(pkg + ".setClientSubnet: construction of dns.EDNS0_SUBNET with Family, SourceNetmask and Address")
 		return
 	}
+	same := func(a, b ssa.Value) bool { return m2SameObj(c.P, a, b, 0) || m2SameObj(c.P, b, a, 0) }
 	sameAddr := func(v ssa.Value) bool {
-		if v == address {
+		if same(v, address) {
 			return true
 		}
 		// Address may be the To4() form of the tested value
-		if c2, _ := mdCallOf(address); c2 != nil && core.CallIs(c2, "net.IP.To4") && len(c2.Args) == 1 && c2.Args[0] == v {
+		if c2, _ := mdCallOf(address); c2 != nil && core.CallIs(c2, "net.IP.To4") && len(c2.Args) == 1 && same(c2.Args[0], v) {
 			return true
 		}
 		return false
@@ -231,7 +249,7 @@ func runC56(c *core.Ctx) {
 	want := map[string][2]int64{"Family": {1, 2}, "SourceNetmask": {32, 128}} // [IPv4, IPv6]
 	for _, fld := range []string{"Family", "SourceNetmask"} {
 		st := fieldStores[fld]
-		cases, resolved := mdSelection(st.Val, func(v ssa.Value) ssa.Value { return v }, 0)
+		cases, resolved := mdSelection(c.P, st.Val, m2Ident, 0)
 		if !resolved || len(cases) < 2 {
 			c.Check("family-selector", "setClientSubnet:"+fld, st.Pos(), false, fld+" is "+core.Render(st.Val)+": not selected between the IPv4 and IPv6 constants by a branch (or a helper's returns) this rule can follow")
 			continue
@@ -283,7 +301,7 @@ func runC56(c *core.Ctx) {
 		var walk func(v ssa.Value, d int)
 		seen := map[ssa.Value]bool{}
 		walk = func(v ssa.Value, d int) {
-			if seen[v] || d > 6 {
+			if seen[v] || d > 8 {
 				return
 			}
 			seen[v] = true
@@ -293,10 +311,36 @@ func runC56(c *core.Ctx) {
 					walk(e, d+1)
 				}
 				return
+			case *ssa.Parameter:
+				// a helper of the region receives the address: its origins are
+				// the arguments at the helper's call sites
+				if i, sites := m2ParamIndex(x), c.P.CallSites(x.Parent()); x.Parent() != scs && i >= 0 && len(sites) > 0 && x.Parent().Object() != nil && !x.Parent().Object().Exported() {
+					for _, s := range sites {
+						if a := s.Common().Args; !s.Common().IsInvoke() && i < len(a) {
+							walk(a[i], d+1)
+						} else {
+							leaves = append(leaves, v)
+						}
+					}
+					return
+				}
 			case *ssa.Call:
 				if core.CallIs(&x.Call, "net.IP.To4", "net.IP.To16") && len(x.Call.Args) == 1 {
 					walk(x.Call.Args[0], d+1)
 					return
+				}
+				// the address is chosen by a helper: its origins are what the helper returns
+				if h := x.Call.StaticCallee(); h != nil && h.Blocks != nil && core.FuncPkgRel(h) == pkg {
+					if rets := core.Returns(h); len(rets) > 0 {
+						for _, r := range rets {
+							if rv := core.RetVals(r); len(rv) == 1 {
+								walk(rv[0], d+1)
+							} else {
+								leaves = append(leaves, v)
+							}
+						}
+						return
+					}
 				}
 			}
 			leaves = append(leaves, v)
@@ -311,9 +355,9 @@ func runC56(c *core.Ctx) {
 				bad = append(bad, core.Render(l))
 				continue
 			}
-			if a, ok := mdFieldLoadNamed(ip, "ClientAddr"); ok && a == req {
+			if a, ok := mdFieldLoadNamed(ip, "ClientAddr"); ok && m2SameObj(c.P, a, req, 0) {
 				hasClient = true
-			} else if a, ok := mdFieldLoadNamed(ip, "RemoteAddr"); ok && a == req {
+			} else if a, ok := mdFieldLoadNamed(ip, "RemoteAddr"); ok && m2SameObj(c.P, a, req, 0) {
 			} else {
 				allOK = false
 				bad = append(bad, core.Render(l))
@@ -325,7 +369,10 @@ func runC56(c *core.Ctx) {
 		msg := ssa.Value(scs.Params[1])
 		optHasSubnet, extraHasOpt := false, false
 		var opt ssa.Value
-		core.Instrs(scs, func(in ssa.Instruction) {
+		// the stores may sit in private helpers of setClientSubnet: the option /
+		// the record / the message are then parameters or results there, and
+		// identity is decided across the call boundary (m2SameObj)
+		c.P.RegionInstrs(scs, func(in ssa.Instruction) {
 			st, ok := in.(*ssa.Store)
 			if !ok {
 				return
@@ -338,20 +385,20 @@ func runC56(c *core.Ctx) {
 			if f == nil {
 				return
 			}
-			if f.Name() == "Option" && strings.HasSuffix(core.TypeStr(fa.X.Type()), "dns.OPT") && mdSliceHas(st.Val, func(v ssa.Value) bool { return v == subnet }) {
+			if f.Name() == "Option" && strings.HasSuffix(core.TypeStr(fa.X.Type()), "dns.OPT") && mdSliceHas(st.Val, func(v ssa.Value) bool { return m2SameObj(c.P, v, subnet, 0) }) {
 				optHasSubnet, opt = true, fa.X
 			}
 		})
-		core.Instrs(scs, func(in ssa.Instruction) {
+		c.P.RegionInstrs(scs, func(in ssa.Instruction) {
 			st, ok := in.(*ssa.Store)
 			if !ok {
 				return
 			}
 			fa, ok := st.Addr.(*ssa.FieldAddr)
-			if !ok || fa.X != msg {
+			if !ok || !m2SameObj(c.P, fa.X, msg, 0) {
 				return
 			}
-			if f := core.FieldObj(fa.X, fa.Field); f != nil && f.Name() == "Extra" && opt != nil && mdSliceHas(st.Val, func(v ssa.Value) bool { return v == opt }) {
+			if f := core.FieldObj(fa.X, fa.Field); f != nil && f.Name() == "Extra" && opt != nil && mdSliceHas(st.Val, func(v ssa.Value) bool { return m2SameObj(c.P, v, opt, 0) }) {
 				extraHasOpt = true
 			}
 		})
@@ -392,7 +439,7 @@ func runC56(c *core.Ctx) {
 				codeOK = true
 			}
 		}
-		core.Instrs(scs, func(in ssa.Instruction) {
+		c.P.RegionInstrs(scs, func(in ssa.Instruction) {
 			st, ok := in.(*ssa.Store)
 			if !ok || !ok2 {
 				return
@@ -513,17 +560,17 @@ func runC56(c *core.Ctx) {
 			}
 			present := func(f mdFact) bool { return f.Pol && fromLookup(f.Cond, 1) }
 			single := func(f mdFact) bool {
-				b, ok := f.Cond.(*ssa.BinOp)
-				if !ok || (b.Op != token.EQL && b.Op != token.NEQ) || (b.Op == token.EQL) != f.Pol {
-					return false
+				// len(values) == 1 in any spelling (1 == len(v), !(len(v) != 1))
+				isLen := func(v ssa.Value) bool {
+					c2, _ := mdCallOf(v)
+					if c2 == nil || len(c2.Args) != 1 {
+						return false
+					}
+					bi, isB := c2.Value.(*ssa.Builtin)
+					return isB && bi.Name() == "len" && fromLookup(c2.Args[0], 0)
 				}
-				k, isK := mdIntConst(b.Y)
-				c2, _ := mdCallOf(b.X)
-				if !isK || k != 1 || c2 == nil {
-					return false
-				}
-				bi, isB := c2.Value.(*ssa.Builtin)
-				return isB && bi.Name() == "len" && fromLookup(c2.Args[0], 0)
+				isOne := func(v ssa.Value) bool { k, ok := mdIntConst(v); return ok && k == 1 }
+				return core.Guard{Cond: f.Cond, Pol: f.Pol}.CmpIs(token.EQL, isLen, isOne)
 			}
 			var dec *ssa.Call
 			for _, call := range core.AllCalls(get) {
